@@ -2,7 +2,8 @@
 # Must-fail corpus: for every seeded change kept under /verif/seeded/<id>-N, a scratch worktree of
 # /repo's HEAD (outside /repo and /verif, removed afterwards) gets the change applied and the quick
 # check of its property is run against that copy (govc check -repo <copy>, output under a scratch
-# directory); exit 1 is required. Four at a time. /repo itself is not touched.
+# directory); exit 1 is required. Four at a time. /repo itself is not touched. GOVC_NORETRY skips the
+# sequential retry of slow obligations (a time-out counts as reported here anyway).
 # usage: tools/selftest.sh [seed-name ...]
 cd /verif
 seeds="$@"; [ -z "$seeds" ] && seeds=$(ls seeded)
@@ -12,7 +13,7 @@ one() {
   git -C /repo worktree remove --force $wt 2>/dev/null; rm -rf $wt
   git -C /repo worktree add -q --detach $wt HEAD || { echo "$s: cannot create worktree"; return; }
   if ! git -C $wt apply /verif/seeded/$s/patch.diff; then echo "$s: patch does not apply"; git -C /repo worktree remove --force $wt; return; fi
-  GOVC_SCRATCH=$wt/.govc /verif/bin/govc check -prop $p -tier quick -repo $wt > out/selftest/$s.txt 2>&1; rc=$?
+  GOVC_NORETRY=1 GOVC_SCRATCH=$wt/.govc /verif/bin/govc check -prop $p -tier quick -repo $wt > out/selftest/$s.txt 2>&1; rc=$?
   git -C /repo worktree remove --force $wt 2>/dev/null; rm -rf $wt
   if [ $rc -eq 1 ]; then echo "$s: reported ($(grep -c '^VIOLATION' out/selftest/$s.txt) violations; first: $(grep -m1 FAILED-OBLIGATION out/selftest/$s.txt | cut -c19-120))"; else echo "$s: NOT REPORTED (exit $rc)"; fi
 }
